@@ -142,7 +142,33 @@ def replay_reused_fluid(model, nx=5):
     return d > 1e-9, {"what": f"SinglePhaseReservoir re-used after its fluid was replaced (p_i 8000 -> 5000): field differs from a fresh reservoir's by {d:.3e}", "inputs": {}}
 
 
-def job_interior(job, cls, nx, reused=False, tseries=False):
+def replay_regrid(model, cls="IdealReservoir", nx=5):
+    """Real runs: an object built and run with a coarse grid, its public `nx` field set to a finer one, run again - against
+    a fresh object built with the finer grid (a refinement ladder walked on one object)."""
+    import numpy as np
+    from bluebonnet.flow import reservoir as rr
+    from .c04 import _real_fluid
+    t = np.linspace(0, 1.0, 15) ** 2
+    fluid = None if cls == "IdealReservoir" else _real_fluid()
+    mk = (lambda n: rr.IdealReservoir(n, 1000.0, 8000.0, None)) if fluid is None else (lambda n: rr.SinglePhaseReservoir(n, 1000.0, 8000.0, fluid))
+    worst = 0.0
+    for n0, n1 in ((max(nx - 2, 3), nx), (10, 20), (20, 40)):
+        a = mk(n0)
+        a.simulate(t)
+        a.recovery_factor()
+        a.nx = n1
+        a.simulate(t)
+        b = mk(n1)
+        b.simulate(t)
+        d = float(np.abs(np.asarray(a.pseudopressure, float) - np.asarray(b.pseudopressure, float)).max())
+        dr = float(np.abs(np.asarray(a.recovery_factor(), float) - np.asarray(b.recovery_factor(), float)).max())
+        worst = max(worst, d, dr)
+        if max(d, dr) > 1e-9:
+            return True, {"what": f"{cls} built with nx={n0}, then nx set to {n1} and simulated: field differs from a fresh nx={n1} object's by {d:.3e}, recovery by {dr:.3e}", "inputs": {}}
+    return False, {"what": f"{cls}: a regridded object gives the fresh object's run (largest difference {worst:.1e})", "inputs": {}}
+
+
+def job_interior(job, cls, nx, reused=False, tseries=False, regrid=False):
     mod = load_reservoir()
     job.encoded(mod, f"{cls}.simulate", "_build_matrix")
     job.stub("linear solve: returns the samples of a polynomial test function at the new time (capturing stub)",
@@ -170,8 +196,14 @@ def job_interior(job, cls, nx, reused=False, tseries=False):
             t = SymSeries(list(t.d), "f8", [0, 1, 2])
         hold["t"] = t
         fluid = FluidStub() if cls != "IdealReservoir" else None
-        r = (mod.IdealReservoir(Q(nx), fresh("pf"), fresh("pi", pos=True), None) if fluid is None
-             else mod.SinglePhaseReservoir(Q(nx), fresh("pf"), fresh("pi", pos=True), fluid))
+        # regrid: the object was built (and run) on a coarser grid and its public `nx` field then set to this one, as a
+        # refinement ladder walked on one object does: the scheme is that of the grid it carries now
+        r = (mod.IdealReservoir(Q(nx - 2 if regrid else nx), fresh("pf"), fresh("pi", pos=True), None) if fluid is None
+             else mod.SinglePhaseReservoir(Q(nx - 2 if regrid else nx), fresh("pf"), fresh("pi", pos=True), fluid))
+        if regrid:
+            r.simulate(t)
+            SS.LinSolve.reset(pol)
+            r.nx = Q(nx)
         if reused:
             # the object has already been run with another fluid (a sweep over tables / initial pressures re-using it):
             # the scheme of the second run is that of the fluid it carries now
@@ -224,9 +256,10 @@ def job_interior(job, cls, nx, reused=False, tseries=False):
         if fluid is not None:
             hyp = hyp + list(fluid.alpha.pending)      # range of the diffusivity lookups made for the reference (if the code read the nodes)
         job.prove(f"L1/{cls}[nx={nx}]/reach[path{k}]", pr.pc + hyp, expect="sat", elim=True)
-        job.prove(f"L1/{cls}[nx={nx}{', object re-used after its fluid was replaced' if reused else ''}]: interior rows exact for cubic-in-x, linear-in-t test functions on the code's mesh[path{k}]",
+        job.prove(f"L1/{cls}[nx={nx}{', object re-used after its fluid was replaced' if reused else ''}{', object built on a coarser grid, nx then reassigned' if regrid else ''}]: interior rows exact for cubic-in-x, linear-in-t test functions on the code's mesh[path{k}]",
                   pr.pc + hyp + [T.b_or(*bad) if bad else T.b_const(False)], bound=f"nx={nx}, any dt, any coefficients, any diffusivity",
-                  replay=((replay_reused_fluid, {"nx": nx}) if reused else (replay_mesh, {"cls": cls, "nx": nx})), note="canonical-form identity" if not bad else None)
+                  replay=((replay_reused_fluid, {"nx": nx}) if reused else (replay_regrid, {"cls": cls, "nx": nx}) if regrid else (replay_mesh, {"cls": cls, "nx": nx})),
+                  note="canonical-form identity" if not bad else None)
 
 
 def replay_boundary(model, cls="SinglePhaseReservoir", nx=4):
@@ -519,7 +552,7 @@ def job_user_alpha(job, n, pp_dtype="f8"):
 
 
 # concrete replays run on the real code when the changed code uses something the engine does not model (harness.finish)
-FALLBACK = [(replay_boundary, {}), (replay_boundary, {"cls": "IdealReservoir"}), (replay_mesh, {}), (replay_mesh, {"cls": "IdealReservoir"}), (replay_recovery, {}), (replay_rows, {"nx": 4, "nt": 3}), (replay_rows, {"cls": "IdealReservoir", "nx": 4, "nt": 3})]
+FALLBACK = [(replay_boundary, {}), (replay_boundary, {"cls": "IdealReservoir"}), (replay_mesh, {}), (replay_mesh, {"cls": "IdealReservoir"}), (replay_recovery, {}), (replay_regrid, {}), (replay_regrid, {"cls": "SinglePhaseReservoir"}), (replay_rows, {"nx": 4, "nt": 3}), (replay_rows, {"cls": "IdealReservoir", "nx": 4, "nt": 3})]
 
 
 def jobs(tier):
@@ -530,6 +563,7 @@ def jobs(tier):
     out.append(("L1-reused-fluid-5", lambda j: job_interior(j, "SinglePhaseReservoir", 5, reused=True)))
     for cls in ("IdealReservoir", "SinglePhaseReservoir"):
         out.append((f"L1-series-time-{cls[:6]}-5", lambda j, c=cls: job_interior(j, c, 5, tseries=True)))
+        out.append((f"L1-regridded-object-{cls[:6]}-5", lambda j, c=cls: job_interior(j, c, 5, regrid=True)))
     out.append(("boundary-4", lambda j: job_boundary(j, 4)))
     out.append(("recovery-5", lambda j: job_recovery(j, 5)))
     if tier != "quick":
